@@ -152,7 +152,7 @@ def triggerFromStr (s : List Char) : Option Trigger :=
         match parseSize b with
         | none => none
         | some mx => some (Trigger.dynamic mn mx)
-    | none => if "Delegated".toList.isPrefixOf s then some Trigger.delegated else none
+    | none => if s = "Delegated".toList then some Trigger.delegated else none
 
 def Trigger.validate : Trigger → Bool
   | .fixed size => size > 0
